@@ -100,7 +100,7 @@ def eqv(a, b, tol=0.0):
 
 
 def gen_instance(rng, sim=False):
-    n = rng.choice([3, 4, 5, 6])
+    n = rng.choice([3, 4, 5, 6]) if not sim else rng.choice([3, 5, 6, 8, 9])
     d = rng.choice([1800, 3600, 3600, 7200, 25200])
     start = rng.choice([0, 86400 * rng.randint(0, 6000), rng.randint(0, 10 ** 8)])
     dts = [start + i * d for i in range(n)]
@@ -547,6 +547,17 @@ def stream_simulation(c, N, tmp):
         root = os.path.join(tmp, "s%d" % i)
         os.makedirs(root)
 
+        # explicit stepping: update(dt) with dt = 1, 2 or 3 import steps, mixed (plan = multiples per call)
+        plan = None
+        if rng.random() < 0.5 and len(dts) - k0 >= 3:
+            left, plan = len(dts) - 1 - k0, []
+            while left > 0:
+                mlt = min(left, rng.choice([1, 2, 2, 3]))
+                plan.append(mlt)
+                left -= mlt
+            if all(x == 1 for x in plan):
+                plan[0:2] = [2]
+            case["update_steps"] = [x * d for x in plan]
         new_u = None
         if backend == "pi" and rng.random() < 0.5:
             # the user replaces the input u from t0 on (values cover forecastDate .. endDate)
@@ -565,12 +576,21 @@ def stream_simulation(c, N, tmp):
                     def pre(self):
                         super().pre()
                         if new_u is not None:
-                            self.set_timeseries("u", np.array(new_u))
+                            # with explicit coarser stepping the series is input only (the export has
+                            # fewer stamps than a series covering every import stamp)
+                            self.set_timeseries("u", np.array(new_u), output=plan is None)
                             seen["u"] = [float(x) for x in self.get_timeseries("u")]
 
                 p = SPiSet(model_name="S", model_folder=mo, input_folder=inp, output_folder=out)
             with quiet_fd():
-                p.simulate()
+                if plan is None:
+                    p.simulate()
+                else:  # the user steps the model himself, with steps that are multiples of the import step
+                    p.pre()
+                    p.initialize()
+                    for mult in plan:
+                        p.update(mult * d)
+                    p.post()
             er = p.extract_results()
             res = {k: [float(x) for x in er[k]] for k in ("y", "x_out")}
             times = [float(t) for t in p.times()]
@@ -596,8 +616,13 @@ def stream_simulation(c, N, tmp):
             s = {**s, "u": [NAN] * k0 + new_u}
         if times != [float(t - dts[k0]) for t in dts[k0:]]:
             c.fail("simulation: times() is not the stamps from t0 on", case, times)
+        reached = [k0]
+        for mlt in (plan or [1] * (len(dts) - 1 - k0)):
+            reached.append(reached[-1] + mlt)
+        if plan is not None:
+            c.hit("simulation/explicit update(dt), dt != import step")
         stamps, cols = exported[0]
-        if stamps != dts[k0:]:
+        if stamps != [dts[i] for i in reached]:
             c.fail("simulation %s export: stamps are not the import stamps from t0 on" % backend, case, stamps)
             continue
         tol = 6e-7 if backend == "csv" else 0.0
@@ -609,8 +634,12 @@ def stream_simulation(c, N, tmp):
         x = res["x_out"]
         if abs(x[0] - s["x"][k0]) > 1e-9:
             c.fail("simulation: x(t0) is not the initial state at t0", case, x)
+        if len(x) != len(reached):
+            c.fail("simulation: number of recorded steps", case, x)
+            continue
         for j in range(1, len(x)):
-            rhs = d * (s["u"][k0 + j] + s["c"][k0 + j]) / 3600.0
+            i_now, step = reached[j], (reached[j] - reached[j - 1]) * d
+            rhs = step * (s["u"][i_now] + s["c"][i_now]) / 3600.0
             if abs((x[j] - x[j - 1]) - rhs) > 1e-7 * max(1.0, abs(rhs)):
                 c.fail("simulation: step %d is not driven by the inputs of its own stamp" % j, case,
                        {"x": x, "expected_increment": rhs})
